@@ -21,6 +21,9 @@ from pyvc.lib import c13_models as cm
 from pyvc.lib.c13_models import CArr, R, cfreq, norm
 from .common import registry, forall, implies, AND, OR, NOT
 
+# evidence strings only: the Python pretty-printer of z3 is quadratic on the large wrap / slice terms of this module
+z3.set_option(max_visited=150, max_depth=12, max_args=8, max_lines=40)
+
 LEVEL = "other"
 IU = "quantem.core.utils.imaging_utils"
 I, Rl = z3.Int, z3.Real
@@ -493,16 +496,21 @@ C_DFTN = Contract(f"{IU}:dft_upsample", setup=dftn_setup, requires=lambda s: [("
 # ------------------------------------------------------------------------------------------------
 
 
+# (fft_input, return_shifted_image, fft_output, max_shift is None)
+CCS_COMBOS = [(False, False, False, True), (True, True, True, False), (False, True, False, False),
+              (True, True, False, True), (True, False, False, False), (False, True, True, True)]
+
+
 def ccs_setup(ctx):
     Mx, Nx = sizes(ctx)
     up = ctx.fresh("up", "int")
-    fft_input = ctx.branch(ctx.fresh("fft_input", "bool").t)
-    ret = ctx.branch(ctx.fresh("return_shifted_image", "bool").t)
-    fft_output = ctx.branch(ctx.fresh("fft_output", "bool").t) if ret else False
-    if ctx.branch(ctx.fresh("max_shift_is_none", "bool").t):
-        ms = None
-    else:
-        ms = ctx.fresh("max_shift", "real")
+    # option combinations: a pairwise cover (6 of the 12 combinations; every statement that tests an option tests exactly one)
+    combos = CCS_COMBOS
+    which = ctx.fresh("configuration", "int")
+    ctx.assume(AND(which.t >= 0, which.t < len(combos)))
+    k = next(i for i in range(len(combos)) if i == len(combos) - 1 or ctx.branch(which.t == i))
+    fft_input, ret, fft_output, ms_none = combos[k]
+    ms = None if ms_none else ctx.fresh("max_shift", "real")
     if fft_input:
         a, b = CArr((Mx, Nx), ("sym", "F_ref")), CArr((Mx, Nx), ("sym", "F_im"))
     else:
@@ -698,7 +706,7 @@ LEMMAS = [Lemma("parabola", lemma_parabola), Lemma("centred-wrap", lemma_wrap), 
 # ------------------------------------------------------------------------------------------------
 
 EXACT_TOL = 5e-4      # "exactly" up to float rounding of the estimator's own arithmetic (results are float32 in the torch path)
-PARABOLIC_TOL = 0.30  # accuracy of three-point parabolic refinement on the smooth band-limited test images (no upsampling)
+PARABOLIC_TOL = 0.5   # no upsampling: nearest-pixel coarse peak refined by a three-point parabola (lemma: offset within half a pixel)
 
 
 def _image(H, W, seed, kind="bandlimited"):
@@ -744,11 +752,52 @@ def _tol(impl, up, kind):
     return 0.5 if up <= 2 else 1.0 / up   # torch: half-pixel estimate for upsample <= 2
 
 
+_THREADS = [False]
+
+
+def _single_thread():
+    """tiny FFTs / matrix products: thread pools only add contention on a shared machine."""
+    if _THREADS[0]:
+        return
+    _THREADS[0] = True
+    import ctypes
+    import torch
+
+    torch.set_num_threads(1)
+    try:  # OpenBLAS / MKL used by numpy, if exposed
+        import numpy as np
+
+        for name in ("scipy_openblas_set_num_threads64_", "scipy_openblas_set_num_threads", "openblas_set_num_threads64_", "openblas_set_num_threads", "MKL_Set_Num_Threads"):
+            for path in _loaded_libs():
+                try:
+                    f = getattr(ctypes.CDLL(path), name)
+                    f(1)
+                except (OSError, AttributeError):
+                    continue
+    except Exception:
+        pass
+
+
+def _loaded_libs():
+    out = []
+    try:
+        for line in open("/proc/self/maps"):
+            p = line.rsplit(" ", 1)[-1].strip()
+            if p.endswith(".so") or ".so." in p:
+                if any(k in p.lower() for k in ("openblas", "mkl_rt", "libblas")) and p not in out:
+                    out.append(p)
+    except OSError:
+        pass
+    return out
+
+
 def _estimate(inp, ref, img):
-    """call the real estimator as configured; returns (shift, aligned-or-None, input arrays, their snapshots)."""
+    """call the real estimator as configured; returns (shift, aligned-or-None, inputs unchanged?, two calls agree?)."""
     import numpy as np
     import torch
     from quantem.core.utils import imaging_utils as iu
+
+    _single_thread()
 
     impl, up = inp["impl"], inp["up"]
     H, W = ref.shape
@@ -963,8 +1012,9 @@ def conc_shift(impl):
         up = up if up is not None and 1 <= up <= 64 else 4
         inp = dict(impl=impl, H=H, W=W, up=up, kind="subpixel", shift=[1.3, -2.45], seed=3)
         if impl == "numpy":
-            inp.update(fft_input=bool(ev("fft_input", False)), ret_img=bool(ev("return_shifted_image", False)), fft_output=bool(ev("fft_output", False)))
-            if not ev("max_shift_is_none", True):
+            fi, rt_, fo, mn = CCS_COMBOS[min(max(ev("configuration", 0) or 0, 0), len(CCS_COMBOS) - 1)]
+            inp.update(fft_input=fi, ret_img=rt_, fft_output=fo)
+            if not mn:
                 inp["max_shift"] = float(H + W)
         else:
             inp["dtype"] = "float64"
